@@ -186,6 +186,7 @@ func (i *interpreter) resetGlobals() {
 	for _, g := range i.mkdbGlobals {
 		*i.globals[g] = zero(mustDeref(g.Type()))
 	}
+	i.installStdStreams()
 }
 
 // runInits interprets package initialisers: whitelisted std packages once per
@@ -263,7 +264,7 @@ var apiNames = map[string]bool{
 	// environment
 	"verifFSSnapshot": true, "verifFSRestore": true, "verifFSCutToSynced": true, "verifFSReset": true,
 	"verifTick": true, "verifYield": true, "verifNumTickers": true, "verifLockHeld": true, "verifGoroutine": true, "verifWatchCalls": true,
-	"verifMapOrderChoice": true, "verifFSFileLen": true, "verifFSMarkSynced": true, "verifFSCacheLoad": true, "verifFSCacheSave": true,
+	"verifMapOrderChoice": true, "verifConsoleIO": true, "verifFSFileLen": true, "verifFSMarkSynced": true, "verifFSCacheLoad": true, "verifFSCacheSave": true,
 }
 
 func isAPIName(n string) bool { return apiNames[n] }
